@@ -9,6 +9,7 @@ int main() {
   std::ios::sync_with_stdio(false);
   std::string line;
   while (std::getline(std::cin, line)) {
+    watchdog(600);   // a corrupted structure may make the library loop: report instead of hanging the check
     if (line.empty()) continue;
     std::vector<std::string> a0 = split(line);
     if (a0[0] == "CFG") { std::cout << "cfg\n" << std::flush; continue; }
